@@ -321,6 +321,8 @@ func l3DecoderCase(c *Ctx, id string, st *trie.SlimTrie, tc *TrieCase, spec *Enc
 	}
 	for _, q := range qs {
 		fmt.Fprintf(cw, "MQ %s\n", hxs(q))
+		qq := q
+		WatchStart("GetID/Get/searchID/Search/RangeGet on query "+hxs(q), func() interface{} { return l3ReplayOf(tc, "query "+hxs(qq), "no return", "an answer") })
 		s, p := protect(func() string {
 			v, f := st.Get(q)
 			l, e, r := st.VerifSearchID(q)
@@ -329,6 +331,7 @@ func l3DecoderCase(c *Ctx, id string, st *trie.SlimTrie, tc *TrieCase, spec *Enc
 			return fmt.Sprintf("%d %s S %d %d %d V %s %s %s R %s", st.GetID(q), foundStr(spec, v, f), l, e, r,
 				ovStr(spec, lv), ovStr(spec, ev), ovStr(spec, rv), foundStr(spec, gv, gf))
 		})
+		WatchEnd()
 		if p != "" {
 			s = "PANIC"
 			// totality of the lookups (C10): no query may panic on a built or reloaded trie
